@@ -1,8 +1,15 @@
 package protocol
 
-import "fmt"
+import (
+	"fmt"
+	"sync"
+)
 
 var Connections map[string]*Monitor
+
+// connectionsMu guards Connections: tunnels register and unregister from
+// their own connection goroutines.
+var connectionsMu sync.Mutex
 
 type Monitor struct {
 	Processor *Processor
@@ -15,6 +22,8 @@ const (
 
 func RegisterTunnel(t *Tunnel, p *Processor) {
 	verifPoint("registry")
+	connectionsMu.Lock()
+	defer connectionsMu.Unlock()
 	if Connections == nil {
 		Connections = make(map[string]*Monitor)
 	}
@@ -28,6 +37,8 @@ func RegisterTunnel(t *Tunnel, p *Processor) {
 
 func RemoveTunnel(t *Tunnel) {
 	verifPoint("registry")
+	connectionsMu.Lock()
+	defer connectionsMu.Unlock()
 	delete(Connections, t.Id)
 	verifEvent("registry", t, "op", "del", "size", len(Connections))
 }
